@@ -100,6 +100,9 @@ func (s *ApplyStage) Process(ctx context.Context, item *BlockItem) error {
 func (s *ApplyStage) ProcessWithStatus(ctx context.Context, item *BlockItem) ([]*BlockItem, error) {
 	select {
 	case <-ctx.Done():
+		if verifEnabled {
+			verifTrace("apply_drop", item, 0)
+		}
 		return nil, ctx.Err()
 	default:
 	}
@@ -110,7 +113,13 @@ func (s *ApplyStage) ProcessWithStatus(ctx context.Context, item *BlockItem) ([]
 	if item.SequenceNumber() == s.nextSequence {
 		s.nextSequence++
 		s.mu.Unlock()
+		if verifEnabled {
+			verifTrace("apply_deq", item, 0)
+		}
 		s.maybeApply(ctx, item)
+		if verifEnabled {
+			verifTrace("apply_done", item, 0)
+		}
 		// Try to apply any buffered items that are now in order
 		buffered := s.applyPending(ctx)
 		// Return the input item plus any buffered items
@@ -124,6 +133,9 @@ func (s *ApplyStage) ProcessWithStatus(ctx context.Context, item *BlockItem) ([]
 	s.pending[item.SequenceNumber()] = item
 	pendingCount := len(s.pending)
 	s.mu.Unlock()
+	if verifEnabled {
+		verifTrace("apply_buf", item, pendingCount)
+	}
 
 	// Check pending limit after buffering - return error to signal backpressure
 	// but the item is still buffered to prevent sequence gaps
@@ -152,6 +164,9 @@ func (s *ApplyStage) maybeApply(ctx context.Context, item *BlockItem) {
 func (s *ApplyStage) applyItem(ctx context.Context, item *BlockItem) {
 	select {
 	case <-ctx.Done():
+		if verifEnabled {
+			verifTrace("apply_cancel", item, 0)
+		}
 		item.SetApplied(false, ctx.Err(), 0)
 		return
 	default:
@@ -201,9 +216,15 @@ func (s *ApplyStage) applyPending(ctx context.Context) []*BlockItem {
 		delete(s.pending, s.nextSequence)
 		s.nextSequence++
 		s.mu.Unlock()
+		if verifEnabled {
+			verifTrace("apply_deq", item, 1)
+		}
 
 		// Apply if valid, otherwise just advance (sequence already incremented)
 		s.maybeApply(ctx, item)
+		if verifEnabled {
+			verifTrace("apply_done", item, 1)
+		}
 
 		processed = append(processed, item)
 	}
@@ -315,6 +336,10 @@ func (r *ApplyStageRunner) run(ctx context.Context) {
 			if !ok {
 				return
 			}
+			if verifEnabled {
+				verifTrace("apply_take", item, 0)
+				verifStageDelay("apply", item)
+			}
 
 			processed, err := r.stage.ProcessWithStatus(ctx, item)
 			if err != nil {
@@ -346,9 +371,15 @@ func (r *ApplyStageRunner) forwardItem(ctx context.Context, item *BlockItem) {
 		r.metrics.RecordPipelineLatency(item.TotalDuration())
 	}
 
+	if verifEnabled {
+		verifTrace("result", item, 0)
+	}
 	select {
 	case r.output <- item:
 	case <-ctx.Done():
+		if verifEnabled {
+			verifTrace("result_drop", item, 0)
+		}
 		return
 	}
 
